@@ -106,8 +106,7 @@ SchemeFor(kt, F) ==
        [] KBase(kt) = "comb" ->
             IF ss = "valid" THEN "secp"
             ELSE IF ss = "open" THEN "open"
-            ELSE IF ss = "invalid" THEN (IF es = "valid" THEN "open" ELSE "reject")
-            ELSE one(es, "ed")
+            ELSE one(es, "ed")      \* no valid secp256k1 entry: exactly the ed25519 key type's rule (C11)
 
 SigOk(kt, scheme, sig, F) ==
   IF KBase(kt) = "var" THEN F.var_sm
